@@ -63,6 +63,10 @@ Rel(steps) == [t |-> "path", abs |-> FALSE, steps |-> steps]
 Fn0(f) == [t |-> "fn", name |-> f, args |-> <<>>]
 Raw(s) == [t |-> "raw", text |-> s]          \* an expression given as text (not an expression at all)
 
+NumHalf(k) == [t |-> "num", n |-> Fin(512 * k)]       \* k/2
+RECURSIVE AndChain(_)
+AndChain(n) == IF n = 1 THEN Fn0("true") ELSE Bin("and", AndChain(n \div 2), AndChain(n - (n \div 2)))   \* balanced: depth log n
+
 Exprs == <<
   AbsP(<<>>),                                          \* 1   /
   AbsP(<<Ch("a")>>),                                   \* 2   /a
@@ -99,7 +103,12 @@ Exprs == <<
   Fn1("count", AbsP(<<Dos, AtS("x"), Step("ancestor", [k |-> "any"], <<>>)>>)),                      \* 28  count(//@x/ancestor::*)
   Bin("|", AbsP(<<Dos, Ch("b"), Step("ancestor", [k |-> "any"], <<>>)>>), AbsP(<<Dos, Ch("nofunc")>>)),   \* 29  //b/ancestor::* | //nofunc  (one operand empty, the other reaches a node twice)
   AbsP(<<Dos, Step("child", [k |-> "any"], <<Fn1("lang", [t |-> "str", v |-> <<106, 97>>])>>)>>),    \* 30  //*[lang('ja')]
-  AbsP(<<Dos, Step("child", [k |-> "any"], <<Fn1("lang", [t |-> "str", v |-> <<26085>>])>>)>>)       \* 31  //*[lang('<first character of the tag>')]
+  AbsP(<<Dos, Step("child", [k |-> "any"], <<Fn1("lang", [t |-> "str", v |-> <<26085>>])>>)>>),      \* 31  //*[lang('<first character of the tag>')]
+  AbsP(<<Dos, Step("child", NameT("b"), <<NumHalf(3)>>)>>),                                          \* 32  //b[1.5]   selects nothing
+  AbsP(<<Dos, Step("child", NameT("b"), <<Bin("div", Fn0("last"), NumL(2))>>)>>),                    \* 33  //b[last() div 2]
+  Fn1("number", [t |-> "str", v |-> <<49, 101, 51>>]),                                               \* 34  number('1e3')   NaN: no exponents in XPath 1.0
+  Bin(">", [t |-> "str", v |-> <<105, 110, 102>>], NumL(1)),                                         \* 35  'inf' > 1       false
+  AndChain(24)                                                                                       \* 36  true() and (true() and ...) - 24 zero-argument calls (TLC's stack does not take the ~650 tokens of 130)
 >>
 
 \* ---------------------------------------------------------------------------------------------
